@@ -49,6 +49,9 @@ pipe_reap(void *arg)
 {
 	nni_pipe *p = arg;
 
+	// If the protocol is just starting this pipe, let it finish first.
+	nni_pipe_start_wait(p);
+
 	p->p_proto_ops.pipe_close(p->p_proto_data);
 
 	// Close the underlying transport.
